@@ -6,6 +6,7 @@ coordinator lock); that the real operations *are* atomic is what the scheduled
 correspondence checks (a check outside the lock shows up as a divergence there).
 -/
 import S3V.Model.Coord
+import S3V.Gen.CoordStep
 
 namespace S3V.C17
 open S3V.Coord
@@ -173,5 +174,38 @@ example : (run {} [.toQueued, .toRunning, .setException 7 false, .cancel 9, .set
                    .announceDone]).exc = some 7 := by decide
 example : resultOf (run {} [.cancel 3]) = .raises 3 := by decide
 example : (run {} [.cancel 3, .setResult 1]).status = .success := by decide
+
+/-! ### the tie to the source: `Gen.coordStep` is translated from futures.py on every run
+
+The translator (`extract.gen_coordstep`) executes `set_result`, `set_exception`, `cancel`,
+`set_status_to_queued / running` (through `_transition_to_non_done_state`) and `TransferFuture.set_exception`
+symbolically, path by path, and writes the result as a Lean function of the same type as `Coord.step`.
+The theorems above are about the hand-written `step`; this one says they are about the code. -/
+
+/-- Whatever the translated source does to status / exception / result (and whether it announces),
+the model's `step` does exactly the same — for every state and operation. -/
+theorem coord_step_from_source (c : Coord) (op : Op) (r : Coord × Out)
+    (h : Gen.coordStep c op = some r) : step c op = r := by
+  cases op <;> simp only [Gen.coordStep, Option.some.injEq, reduceCtorEq] at h <;> subst h <;>
+    cases c <;> rename_i st _ _ _ _ _ _ _ <;> cases st <;> simp [step, Coord.done, Status.isDone, announce]
+
+/-- The translation covers every operation that touches status / exception / result. -/
+theorem coord_step_covers (c : Coord) (op : Op) :
+    (Gen.coordStep c op).isSome ∨ (∃ i, op = .addDoneCallback i) ∨ (∃ i, op = .addFailureCleanup i) ∨
+      op = .announceDone := by
+  cases op <;> simp [Gen.coordStep]
+
+/-- Every write of status / exception / result happens under the state lock (what makes one operation
+one atomic step of the model), and no method announces done while holding it (defect D3). -/
+theorem coord_locking_from_source :
+    Gen.coordWritesWithoutLock = [] ∧ Gen.coordAnnouncesUnderLock = [] := by decide
+
+/-- `announce_done` as the model's `announce` has it: cleanups unless success, then the event, then the
+done callbacks (each runner takes its lock, runs the list and empties it — checked by the translator). -/
+theorem announce_order_from_source :
+    Gen.announceOrder =
+      ["if status != 'success': _run_failure_cleanups", "_done_event.set", "_run_done_callbacks"] := by decide
+
+example : Gen.coordStep {} (.cancel 3) = some (announce { status := .cancelled, exc := some 3 }, .ok) := by decide
 
 end S3V.C17
